@@ -158,6 +158,11 @@ def get_bytes_from_code(code):
         # Use uncompressed.
         code_bytes = bytes(code)
 
+    if len(code_bytes) > 0x8000-0x4300:
+        raise util.InvalidP8DataError(
+            'Lua code does not fit in the cart: {} bytes, limit {}'.format(
+                len(code_bytes), 0x8000-0x4300))
+
     byte_array = bytearray(0x8000-0x4300)
     byte_array[:len(code_bytes)] = code_bytes
 
